@@ -155,6 +155,13 @@ CHECKS = {
    text='PARTIAL. 11 machine-checked theorems: for every sequence of adapted storage commands (any length, from any good state) that avoids the one refuted decision, a table/column exists in the catalog iff the layout of the resulting schema addresses it (C05_tracks, C05_no_orphans, C05_no_missing), no emitted command fails in the backend (C05_no_backend_error), every DDL-level history from the empty database keeps the state good (C05_history_tracks), renames / abstract<->concrete / required<->optional emit no storage command (C05_rename_free), the compiler-side and schema-side storage predicates translated from source are the same function (C05_ptrref_agrees); C05_full_refuted shows the unrestricted statement is false of the faithful model (known finding C05-F1). '
         'Tie: generated DDL histories (create/drop/rename of types and pointers, single<->multi, required<->optional, link properties, bases, abstract<->concrete, computed<->stored) through the REAL schema delta + pgsql/delta adaptation; the emitted dbops stream is interpreted by a PostgreSQL-strict catalog simulator (unknown constructs => abstain, counted) and compared per step with the model and with the real get_pointer_storage_info / ptrref storage info of every pointer; real EdgeQL->SQL compilations of probe queries are looked up in the simulated catalog.',
    note='Trusted: Coq kernel; extraction; translator; harness incl. the catalog simulator (stands for PostgreSQL DDL semantics; no real backend); vrt substrate. Not modelled: constraints, indexes, triggers, views, data-copy SQL, column types, NOT NULL, pointer merges under multiple inheritance (declared out of scope per history). No axioms.'),
+ 'C06': dict(
+   category='proof', design_ref='DESIGN.md section 4, C06 (+ section 9 change log)',
+   technique='Coq soundness proof of a core cardinality/multiplicity inference calculus against a list-based set semantics, with the bounds algebra regenerated from cardinality.py/multiplicity.py/qltypes.py by a fail-closed translator; differential correspondence vs the real compiler; reference-evaluator (toy_eval_model) monitor',
+   text='PARTIAL (core calculus; the full multiplicity statement is refuted). Proved on the translated bounds algebra (Gen_Card.v): n-ary product / union / coalesce / intersect bounds are sound, the partial enum/dict operations never fail, bounds<->cardinality round trip. Proved for every schema, conforming database, expression of the calculus and evaluation: when no over-claiming rule fires (executable side condition run_tags = []), |eval e| lies within the reported cardinality (C06_card_sound), UNIQUE implies NoDup (C06_mult_sound), every computed shape element lies within its out_cardinality (C06_shape_sound); '
+        'Refuted.v holds vm_compute witnesses that each statement without the side condition is false of the faithful model (known findings C06-F1..F6, F9). Tie: generated binder-explicit core queries over generated schemas compiled by the REAL compiler — ir.cardinality / ir.multiplicity / shape out_cardinality must equal the model\'s; the Coq eval agrees with toy_eval_model on the common fragment; upstream\'s 260 pinned inference labels must hold; '
+        'monitor independent of the model: every query (incl. an exploration stream with implicit path factoring) is evaluated by toy_eval_model on random conforming databases incl. empty tables and compared with the compiler\'s answer. Ten genuine over-claims are known findings.',
+   note='Trusted: Coq kernel; extraction; translator; harness; vrt substrate; toy_eval_model as reference semantics (plus harness-added assert_*, array_get, empty-safe min/max). Outside the calculus (monitors only): implicit path factoring, GROUP, DML, globals, schema-computed pointers, inheritance, link properties; FOR-disjointness (TFor) instances are covered by monitors only. No axioms.'),
 }
 
 NA_DEFAULT = 'check not built yet (round 1 in progress); see DESIGN.md section 6'
